@@ -121,19 +121,19 @@ func (o Operand) String() string {
 
 // Inst is the semantic tuple of one decoded instruction.
 type Inst struct {
-	Op       string // canonical mnemonic; Jcc are "Jcc" with CC set
-	CC       int
-	OpSize   int // effective operand size (8/16/32); 0 when the instruction has none
-	Ops      []Operand
-	Len      int
-	Has66    bool
-	Has67    bool
-	Uses66   bool   // the operand-size attribute changes this instruction's meaning
-	Uses67   bool   // the address-size attribute is used (memory operand / moffs)
-	SegOvr   string // segment override prefix seen
-	Rep      byte   // F2/F3/F0 seen
-	Names    []string // for fixed no-operand encodings: every mnemonic this byte string means
-	Bytes    []byte
+	Op     string // canonical mnemonic; Jcc are "Jcc" with CC set
+	CC     int
+	OpSize int // effective operand size (8/16/32); 0 when the instruction has none
+	Ops    []Operand
+	Len    int
+	Has66  bool
+	Has67  bool
+	Uses66 bool     // the operand-size attribute changes this instruction's meaning
+	Uses67 bool     // the address-size attribute is used (memory operand / moffs)
+	SegOvr string   // segment override prefix seen
+	Rep    byte     // F2/F3/F0 seen
+	Names  []string // for fixed no-operand encodings: every mnemonic this byte string means
+	Bytes  []byte
 }
 
 func (i Inst) String() string {
@@ -241,7 +241,7 @@ func (d *decoder) modrm(addr int) (reg int, rm int, isReg bool, m *Mem) {
 	return
 }
 
-func regOp(n, size int) Operand { return Operand{Kind: "reg", Reg: RegName(n, size), Size: size} }
+func regOp(n, size int) Operand       { return Operand{Kind: "reg", Reg: RegName(n, size), Size: size} }
 func immOp(v int64, size int) Operand { return Operand{Kind: "imm", Imm: v, Size: size} }
 
 func rmOp(rm int, isReg bool, m *Mem, size int) Operand {
